@@ -5,8 +5,8 @@ generates schedules (racing Tells/Asks, kills, restarts, Close); harness/cmd/con
 real nodes; spec/ConnTableTrace.tla judges the recorded tables, results and deliveries.
 
 Pipeline: (1) TLC model-checks ConnTable for both transports (free environment, bounded), in the thorough
-tier also the liveness property and the variants without each of the four repairs (each must violate its
-law: the model shows the defect) and the two recorded findings; (2) TLC generates schedules: the Core
+tier also the liveness property and the variants without each of the five repairs (each must violate its
+law: the model shows the defect) and the recorded finding; (2) TLC generates schedules: the Core
 scenarios of ConnTableGen, random schedules (simulation, seeded by VERIF_SEED) and, thorough, the edge
 cover (quiescent abstract state x group); (3) TLC (ConnTableGen!OutSpec) computes for every group of every
 schedule ALL observable outcomes over all interleavings; (4) conntabreplay executes every schedule several
@@ -17,8 +17,7 @@ predicted set (DRIFT).
 Verdict policy (BUILDING.md): VIOLATION only when the REAL code falsifies a law operator evaluated by TLC in
 the trace specification; DRIFT when the observation is merely not among the model's outcomes; a
 counterexample in the model alone, a build error or a timeout is INCONCLUSIVE.  Recorded findings have keys
-"G04:..." in known_findings.json; sshswarm.Close not closing its connections is C12's finding
-(KF_SshCloseKeepsConns) and is not re-reported.
+"G04:..." in known_findings.json.
 """
 import json
 import os
@@ -37,7 +36,7 @@ TIERS = {
     "thorough": dict(mc=["ConnTable_quic_q.cfg", "ConnTable_ssh_q.cfg", "ConnTable_quic_e.cfg", "ConnTable_ssh_e.cfg", "ConnTable_quic.cfg", "ConnTable_ssh.cfg", "ConnTable_quic3.cfg", "ConnTable_ssh3.cfg"],
                      live=["ConnTable_quic_live.cfg", "ConnTable_ssh_live.cfg"],
                      expect=[("old_removeOwn", "NoOrphan"), ("old_closeMismatch", "NoOrphan"), ("old_sshRemoveDead", "DeadRemoved"),
-                             ("old_sshCloseLoser", "NoOrphan"), ("kf_replace", "NoOrphanStrict"), ("kf_sshclose", "AfterCloseStrict")],
+                             ("old_sshCloseLoser", "NoOrphan"), ("kf_replace", "NoOrphanStrict"), ("old_sshclose", "AfterClose")],
                      sim=60, groups=4, cover=2, slow=True, reps=4, procs=8, three=True),
 }
 
